@@ -37,3 +37,37 @@ Example C04_example :
                {| d_names := ["T"%string]; d_deps := [] |} ] = Some [2; 1; 0].
 Proof. exact order_example. Qed.
 Print Assumptions C04_example.
+
+(* ---- uniquely named.  Tr/Names.v: a function, type, constant or variable keeps
+   its Go name, the method m of T is called T__m (internal/coq/coq.go MethodName).
+   In a package whose identifiers contain no underscore the Coq names of the
+   declarations are pairwise distinct (Go already guarantees distinct
+   package-level identifiers and at most one method m per type) ... *)
+From GV Require Import Tr.Names Tr.NamesProofs.
+
+Theorem C04_names_unique_partial : forall ds, go_valid ds -> plain ds -> NoDup (map coq_name ds).
+Proof. exact names_unique_plain. Qed.
+Print Assumptions C04_names_unique_partial.
+
+Theorem C04_method_name_injective : forall t1 m1 t2 m2,
+  no_us t1 = true -> no_us t2 = true -> method_name t1 m1 = method_name t2 m2 -> t1 = t2 /\ m1 = m2.
+Proof. exact method_name_injective. Qed.
+Print Assumptions C04_method_name_injective.
+
+(* ... and the full statement (every Go-valid package) is false of the code:
+   method b of A against function A__b, and — with no doubled underscore in
+   any identifier — method b of a_ against method _b of a.  Both witnesses are
+   catalogue items replayed on the real goose (known findings
+   order_name_collision, order_name_collision_underscores: "already exists") *)
+Theorem C04_names_unique_refuted : exists ds, go_valid ds /\ ~ NoDup (map coq_name ds).
+Proof. exact names_unique_refuted. Qed.
+Print Assumptions C04_names_unique_refuted.
+
+Theorem C04_names_unique_refuted_single_underscores : exists ds, go_valid ds /\ ~ NoDup (map coq_name ds).
+Proof. exact names_unique_refuted_single_underscores. Qed.
+Print Assumptions C04_names_unique_refuted_single_underscores.
+
+Example C04_names_example :
+  go_valid [GType "Log"; GMethod "Log" "Append"; GFunc "Open"; GConst "MaxLen"] /\
+  plain [GType "Log"; GMethod "Log" "Append"; GFunc "Open"; GConst "MaxLen"].
+Proof. exact plain_package_is_covered. Qed.
